@@ -2,7 +2,7 @@
 the serialisers and the process are exercised by running the real binary)."""
 import base64, json, os, random, re, socket, struct, subprocess, threading, time
 import vlib, netcases
-from props import netprops, cliplan
+from props import netprops, cliplan, clibson
 from props.c15 import tok as val_tokens
 
 LEVEL = "other"
@@ -618,7 +618,8 @@ def run(rep, tier, seed, replay=None):
     cliplan.run(rep, [l for l in netprops.corpus("C19") if cliplan.is_plan(l)])
     cliplan.run(rep, cliplan.gen(seed + 19, tier))
     # the mirrors the model's documents are made of, against the crates / std themselves
-    cliplan.run_codec(rep, [l for l in netprops.corpus("C19") if cliplan.is_codec(l)] + cliplan.codec_cases(seed + 19, tier), tag="c19codec")
+    cliplan.run_codec(rep, [l for l in netprops.corpus("C19") if cliplan.is_codec(l)] + cliplan.codec_cases(seed + 19, tier) + clibson.cases(seed + 19, tier),
+                      tag="c19codec")
     # the writers of the real binary on values of every shape
     hook_documents(rep, tier, seed)
     ok, log = build_cli()
